@@ -81,7 +81,12 @@ def instant(draw):
 
 
 SCALAR_REPS = ["aware", "naive", "iso_Z", "iso_offset", "iso_none", "int", "float", "np_int64",
-               "np_float64", "dt64_s", "dt64_ms", "dt64_us", "dt64_ns"]
+               "np_float64", "dt64_s", "dt64_ms", "dt64_us", "dt64_ns",
+               # less common spellings of the same kinds (added for seeded round 8): datetime subclasses,
+               # zones with daylight saving, narrow integer types, coarse datetime64 units
+               "aware_zone", "pd_aware", "pd_naive", "np_int32", "dt64_m", "dt64_h", "dt64_D"]
+ZONES = ["America/New_York", "Europe/Amsterdam", "Australia/Lord_Howe", "Asia/Kathmandu", "Pacific/Chatham",
+         "America/St_Johns", "UTC"]
 
 
 @st.composite
@@ -99,11 +104,27 @@ def scalar_rep(draw, reps=SCALAR_REPS):
             while need > 1 and frac % (10 ** (6 - need + 1)) == 0:
                 need -= 1
             digits = draw(st.integers(need, 6))
-    if rep in ("int", "np_int64", "dt64_s"):
+    us = quantise_us(us, rep)
+    if rep in ("aware_zone", "pd_aware"):
+        off = draw(st.integers(0, len(ZONES) - 1))      # index into ZONES
+    return {"us": us, "rep": rep, "off": off, "digits": digits}
+
+
+def quantise_us(us, rep):
+    """The instant a representation can hold exactly (whole seconds for ints, the unit for datetime64)."""
+    if rep in ("int", "np_int64", "dt64_s", "np_int32"):
         us = us - us % 10 ** 6
+    if rep == "np_int32":
+        us = min(us, (2 ** 31 - 1) * 10 ** 6)
     if rep == "dt64_ms":
         us = us - us % 1000
-    return {"us": us, "rep": rep, "off": off, "digits": digits}
+    if rep == "dt64_m":
+        us = us - us % (60 * 10 ** 6)
+    if rep == "dt64_h":
+        us = us - us % (3600 * 10 ** 6)
+    if rep == "dt64_D":
+        us = us - us % (86400 * 10 ** 6)
+    return us
 
 
 def render(r):
@@ -134,6 +155,23 @@ def render(r):
         return np.datetime64(us, "us")
     if rep == "dt64_ns":
         return np.datetime64(us * 1000, "ns")
+    if rep == "aware_zone":
+        import zoneinfo
+        return (EPOCH + timedelta(microseconds=us)).astimezone(zoneinfo.ZoneInfo(ZONES[r["off"]]))
+    if rep == "pd_aware":
+        import pandas as pd
+        return pd.Timestamp(EPOCH + timedelta(microseconds=us)).tz_convert(ZONES[r["off"]])
+    if rep == "pd_naive":
+        import pandas as pd
+        return pd.Timestamp((EPOCH + timedelta(microseconds=us)).replace(tzinfo=None))
+    if rep == "np_int32":
+        return np.int32(us // 10 ** 6)
+    if rep == "dt64_m":
+        return np.datetime64(us // (60 * 10 ** 6), "m")
+    if rep == "dt64_h":
+        return np.datetime64(us // (3600 * 10 ** 6), "h")
+    if rep == "dt64_D":
+        return np.datetime64(us // (86400 * 10 ** 6), "D")
     raise ValueError(rep)
 
 
@@ -204,10 +242,9 @@ def fixed_scalar():
         for rep in SCALAR_REPS:
             r = {"us": us, "rep": rep, "off": 345 if rep in ("aware", "iso_offset") else 0,
                  "digits": 6 if rep.startswith("iso") else 0}
-            if rep in ("int", "np_int64", "dt64_s"):
-                r["us"] = us - us % 10 ** 6
-            if rep == "dt64_ms":
-                r["us"] = us - us % 1000
+            r["us"] = quantise_us(us, rep)
+            if rep in ("aware_zone", "pd_aware"):
+                r["off"] = 2
             out.append(r)
     return out
 
